@@ -794,6 +794,28 @@ func (v *Verifier) execBlock(b *ssa.BasicBlock, pred *ssa.BasicBlock, st *State)
 			phiVals = append(phiVals, v.operand(st, ph.Edges[pi]))
 		}
 	}
+	// leaving a loop for the code after it: the loop's exit clauses are proved on this edge
+	if pred != nil {
+		for _, lo := range v.loops {
+			if lo.spec == nil || len(lo.spec.Exits) == 0 || !lo.body[pred] || lo.body[b] || lo.head == b {
+				continue
+			}
+			if len(b.Instrs) > 0 {
+				if _, isRet := b.Instrs[len(b.Instrs)-1].(*ssa.Return); isRet {
+					continue // a return from inside the loop is not an exit to the code after it
+				}
+			}
+			cur := make([]Value, len(lo.phis))
+			for i, ph := range lo.phis {
+				cur[i] = st.regs[ph]
+			}
+			se := v.specEnv(st, v.loopVars(lo, st, lo.phis, cur))
+			se.loopSt = st.loopEntry[lo.ordinal]
+			for _, ex := range lo.spec.Exits {
+				v.emit(st, "exit", fmt.Sprintf("%d.%s", lo.ordinal, ex.Label), se.evalBool(ex.E), ex.Props, "on leaving loop "+fmt.Sprint(lo.ordinal)+": "+ex.Text, nil)
+			}
+		}
+	}
 	if li := v.loops[b]; li != nil {
 		isBack := pred != nil && li.body[pred]
 		if isBack {
@@ -2354,6 +2376,11 @@ func (v *Verifier) frameFormulas(st *State, asGoal bool) []frameF {
 		}
 		if !ok || cur == init {
 			continue
+		}
+		if strings.HasPrefix(name, "G!") {
+			if g := v.prog.ghosts[strings.TrimPrefix(name, "G!")]; g != nil && g.History {
+				continue // history ghosts are outside every frame
+			}
 		}
 		wild := false
 		for _, a := range sets[name] {
